@@ -1,4 +1,5 @@
 Require Extraction.
 Require Import ExtrOcamlBasic.
-From Argot Require Import Model.Intra.
-Extraction "intra.ml" violations check_closed check_wf_ssa required_edges fs_build.
+From Argot Require Import Model.Intra Lang.RegSem.
+Extraction "intra.ml" violations check_closed check_wf_ssa required_edges fs_build
+                      check_store_closed check_loads_ok check_addr_alloc.
